@@ -562,6 +562,8 @@ static Token *paste(Token *lhs, Token *rhs) {
   Token *tok = tokenize_synthesized(buf, lhs);
   if (tok->next->kind != TK_EOF)
     error_tok(lhs, "pasting forms '%s', an invalid token", buf);
+  tok->at_bol = lhs->at_bol;
+  tok->has_space = lhs->has_space;
   return tok;
 }
 
@@ -891,7 +893,8 @@ static Token *include_file(Token *tok, char *path, Token *filename_tok) {
 // Read #line arguments
 static void read_line_marker(Token **rest, Token *tok) {
   Token *start = tok;
-  tok = preprocess(copy_line(rest, tok));
+  tok = preprocess2(copy_line(rest, tok));
+  convert_pp_tokens(tok);
 
   if (tok->kind != TK_NUM || tok->ty->kind != TY_INT)
     error_tok(tok, "invalid line marker");
@@ -1275,8 +1278,12 @@ Token *preprocess(Token *tok) {
   tok = preprocess2(tok);
   if (cond_incl)
     error_tok(cond_incl->tok, "unterminated conditional directive");
-  convert_pp_tokens(tok);
-  join_adjacent_string_literals(tok);
+  // -E stops after translation phase 4: preprocessing numbers stay
+  // what they are and adjacent string literals are not concatenated.
+  if (!opt_E) {
+    convert_pp_tokens(tok);
+    join_adjacent_string_literals(tok);
+  }
 
   for (Token *t = tok; t; t = t->next)
     t->line_no += t->line_delta;
